@@ -22,6 +22,7 @@ def _fake():
     _state["t"] += 7.0 if x < 0.05 else x * 1e-3
     return _state["t"]
 time.time = _fake
+sys.setswitchinterval(1e-5)  # another machine: threads (if any) are switched far more often
 # a different heap history: holes of many sizes, so that objects created later do not come out in address order
 # (nothing in a trace may depend on id() / memory addresses)
 class _J:
@@ -92,7 +93,11 @@ def gen_case(seed):
     rr = random.Random(f"{seed}:c09:replication")
     if kind == "greedy" and rr.random() < 0.35:
         # --replication_factor: every job graph is loaded k times, each replica with its own arrival process
-        w["replication_factor"] = rr.choice([2, 3])
+        # (8: with >= 16 job graphs a loader that expands them on several threads would interleave the draws
+        # from the shared seeded generators differently in every process)
+        w["replication_factor"] = rr.choice([2, 3, 3, 8])
+        if w["replication_factor"] == 8:
+            w["graphs"] = w["graphs"][:2]  # 16 job graphs are enough, keep the run short
         for g in w["graphs"]:
             g["release"]["invocations"] = min(g["release"].get("invocations", 2), 2)
     return {"seed": seed, "world": w, "format": r.choice(["json", "yaml"]),
